@@ -171,7 +171,15 @@ func evalC09(c *Ctx, cs *Case) {
 				opts := append(fsOpts("", exts, hasExt, true, massive, false), bopts...)
 				if (ei+int(cs.Seed%5))%5 == 2 {
 					// a meaningless encode option next to the dry-run option must not change the report
-					opts = append(opts, []gtree.Option{gtree.WithEncodeJSON(), gtree.WithEncodeYAML()}[ei%2])
+					// (the order of options in the list means nothing: the encode option comes after the
+					// dry-run option for half of these cases and before everything else for the others)
+					enc := []gtree.Option{gtree.WithEncodeJSON(), gtree.WithEncodeYAML()}[ei%2]
+					if (cs.Idx+ei)%2 == 0 {
+						opts = append(opts, enc)
+					} else {
+						opts = append([]gtree.Option{enc}, opts...)
+						c.Count("dry_runs_with_a_stray_encode_option.encode_first", 1)
+					}
 					c.Count("dry_runs_with_a_stray_encode_option", 1)
 				}
 				cs.Entry = "OutputFromMarkdown[dryrun," + mode + "]"
